@@ -76,7 +76,14 @@ func (dd *DrandDaemon) VerifShutdown(ctx context.Context) {
 	}
 	dd.state.Unlock()
 	for _, bp := range bps {
+		bp.state.RLock()
+		orphan := bp.beacon == nil && bp.dbStore != nil
+		bp.state.RUnlock()
 		bp.StopBeacon(ctx)
+		if orphan {
+			// StartBeacon failed after createDBStore: nobody owns the open store (drand leaks it); release the file lock
+			_ = bp.dbStore.Close()
+		}
 	}
 	dd.dkg.Close()
 }
